@@ -193,6 +193,10 @@ func (field *mapOfEnumField) SetEnum(key string, value string) error {
 		return fmt.Errorf("enum value %s not found", value)
 	}
 
+	if field.value.Has(protoreflect.ValueOfString(key).MapKey()) {
+		return fmt.Errorf("key %q already exists in map", key)
+	}
+
 	field.setKey(key, protoreflect.ValueOfEnum(protoreflect.EnumNumber(option.Number())))
 	return nil
 }
